@@ -14,10 +14,18 @@
 (*     code: centre month of the fitted model that produced the hours      *)
 (*  in.kind = "bins":    [T, E]             out = [res, bins, exact]       *)
 (*  in.kind = "occ":     [occ, T, Eo, Eu]   out = [res, obins, ubins, exact] *)
-(*  in.kind = "how":     [dow, hour]        out = [res, how]               *)
+(*  in.kind = "how":     [dow, hour, wk]    out = [res, how, n]            *)
+(*     wk names a Monday-to-Sunday week of local hours (HowWeeks: a plain week,  *)
+(*     weeks whose Sunday has 23 or 25 hours in four zones, one with the change  *)
+(*     at midnight); n = rows of that week with this weekday and clock hour,     *)
+(*     how = their common hour_of_week (-1 when they disagree or n = 0)          *)
 (***************************************************************************)
 EXTENDS Integers, Sequences, FiniteSets, TLC
 
+\* weeks of the hour-of-week cases (the driver's table HOW_WEEKS has the same order): 0 plain; 1, 4, 5, 7 end on a 23-hour
+\* Sunday (7: the change is at local midnight); 2, 3, 6 end on a 25-hour Sunday
+HowWeeks == 0..7
+SpringWeeks == {1, 4, 5, 7}
 Prev(m) == IF m = 1 THEN 12 ELSE m - 1
 Nxt(m)  == IF m = 12 THEN 1 ELSE m + 1
 NSeg(type) == IF type = "single" THEN 1 ELSE 12
@@ -69,6 +77,7 @@ Clauses(in, out) ==
                          /\ out.ubins = (IF in.occ = 0 THEN Bins(in.T, in.Eu) ELSE Zeros(Len(in.Eu) + 1)))>> >>
     [] in.kind = "how" ->
       << <<"TimeFeaturesReturn", out.res = "ok">>,
-         <<"HourOfWeekIs24TimesWeekdayPlusHour", out.res = "ok" => out.how = 24 * in.dow + in.hour>> >>
+         <<"HourOfWeekIs24TimesWeekdayPlusHour", out.res = "ok" => (out.n = 0 \/ out.how = 24 * in.dow + in.hour)>>,
+         <<"OnlyASkippedClockHourIsAbsent", out.res = "ok" => (out.n \in {1, 2} \/ (out.n = 0 /\ in.wk \in SpringWeeks /\ in.dow = 6))>> >>
 Failing(in, out) == LET c == Clauses(in, out) IN {c[k][1] : k \in {k \in 1..Len(c) : ~c[k][2]}}
 =============================================================================
